@@ -394,7 +394,7 @@ def paint_varied_reuse_set(r, nglyphs=3, defaults=False):
             fill = "#%02x%02x%02x" % (r.randint(1, 255), r.randint(0, 255), r.randint(0, 255))
             op = f' opacity="{r.choice([0.25, 0.3, 0.5, 0.75, 0.8])}"' if r.random() < 0.85 else ""
             tr = f' transform="translate({dx} {dy})"' if (g or c) else ""
-            if defaults and r.random() < (0.15 if (g == 0 and c == 0) else 0.45):
+            if defaults and ((g == 0 and c == 1) or r.random() < (0.0 if (g == 0 and c == 0) else 0.35)):
                 # an occurrence left at the defaults (black, opaque): nothing for a <use> to say
                 body += f'<path d="{d}"{tr}/>' if r.random() < 0.5 else f'<path d="{d}" fill="black"{tr}/>'
                 continue
